@@ -466,7 +466,6 @@ func (d *driver) replay(path string) int {
 	return 1
 }
 
-
 // reportTwin handles a twin-process mismatch: the scenario is re-executed in
 // several fresh processes; the violation is reported when two of them return
 // different results to their callers.
